@@ -178,6 +178,11 @@ def make_uploadable(how, data, convergence, ch, tmpdir, name):
         return Data(data, convergence=convergence)
     if how == "filehandle":
         return FileHandle(BytesIO(data), convergence=convergence)
+    if how in ("filehandle-at-end", "filehandle-mid"):
+        # a handle that was just written (SFTP hands over its temporary file like this): not positioned at offset 0
+        f = BytesIO(data)
+        f.seek(len(data) if how == "filehandle-at-end" else len(data) // 2)
+        return FileHandle(f, convergence=convergence)
     if how == "filename":
         p = os.path.join(tmpdir, "up-%s" % name)
         with open(p, "wb") as f:
@@ -248,8 +253,8 @@ def gen_roundtrip(seed, tier, focus):
         size = ch.pick("config", "litsize", [0, 1, 30, 54, 55, 56, 57])
     cfg = {"k": k, "happy": happy, "n": n, "seg": seg, "nservers": nservers, "size": size,
            "datapat": ch.randint("config", "datapat", 1, 1 << 30),
-           "convergence": ch.pick("config", "conv", ["A", "A", "B", None]),
-           "how": ch.pick("config", "how", ["data", "filehandle", "filename", "chunky"]),
+           "convergence": ch.pick("config", "conv", ["A", "A", "B", None] + (["", "A"] if focus == "C05" else [])),
+           "how": ch.pick("config", "how", ["data", "filehandle", "filename", "chunky"] + (["filehandle-at-end", "filehandle-mid"] if focus == "C05" else [])),
            "knobs": gen_knobs(ch), "net": gen_net(ch)}
     ops = []
     nreads = ch.randint("workload", "nreads", 1, 4) if focus in ("C04",) else ch.randint("workload", "nreads", 1, 2)
@@ -271,6 +276,8 @@ def gen_roundtrip(seed, tier, focus):
 
 
 def conv_secret(tag):
+    if tag == "":
+        return b""          # the empty string is a valid convergence secret
     return None if tag is None else hashlib.sha256(b"conv-" + tag.encode()).digest()[:16]
 
 
@@ -430,7 +437,7 @@ def exec_roundtrip(case):
         # --- C05: same data again, other client / other grid order / other chunking
         if focus == "C05":
             c3 = g.add_client(k=cfg["k"], happy=cfg["happy"], n=cfg["n"], segsize=cfg["seg"], convergence=conv_secret("A"))
-            how2 = g.ch.pick("workload", "how2", ["data", "filehandle", "chunky", "filename"])
+            how2 = g.ch.pick("workload", "how2", ["data", "filehandle", "chunky", "filename", "filehandle-at-end", "filehandle-mid"])
             EncryptAnUploadable.CHUNKSIZE = g.ch.pick("workload", "chunk2", [5, 33, 999, 50 * 1024])
             st4, r4 = run(c3.upload(make_uploadable(how2, data, conv, g.ch, base, "u1")))
             if st4 == "ok":
